@@ -61,14 +61,26 @@ func verifC14Names() {
 		{"http://example.com", "example.com", 443, "example.com"},
 		{"https://example.com:8080/path", "_8080._https.example.com", 8080, "example.com"},
 		{"foo://example.com", "_foo.example.com", 443, "example.com"},
+		{"example.com.", "example.com", 443, "example.com"},
+		{"example.com:0", "example.com", 443, "example.com"},
+		{"http://example.com:8080", "_8080._https.example.com", 8080, "example.com"},
+		{"HTTPS://example.com:444/x?y", "_444._https.example.com", 444, "example.com"},
 	}
 	f := forms[vInt(0, len(forms)-1)]
 	z := &vZone{}
-	z.answer = func(q vQuery) (*dns.Message, error) { return &dns.Message{QR: 1}, nil }
+	z.answer = func(q vQuery) (*dns.Message, error) {
+		m := &dns.Message{QR: 1}
+		if q.typ == 1 {
+			// (the answer's owner is written without the trailing dot, as servers do)
+			m.Answer = append(m.Answer, dns.RR{Name: f.host, Type: 1, Class: 1, TTL: 60, Data: net.IP{10, 1, 2, 3}})
+		}
+		return m, nil
+	}
 	z.install()
 	r := &Resolver{}
 	res, err := r.Resolve(context.Background(), f.in)
 	vAssert(err == nil, "resolution with empty answers succeeds")
+	vAssert(len(res.Address) == 1 && vBytesEq(res.Address[0].To4(), net.IP{10, 1, 2, 3}), "the host's address record is used")
 	vAssert(len(z.queries) >= 1 && z.queries[0].name == f.qname && z.queries[0].typ == 65, "first query is the RFC 9460 2.3 HTTPS QNAME")
 	vAssert(res.Port == f.port, "port of the result")
 	vAssert(len(z.queries) == 3 && z.queries[1] == vQuery{f.host, 1} && z.queries[2] == vQuery{f.host, 28}, "then A and AAAA for the host")
@@ -112,6 +124,7 @@ func verifC14Zone() {
 	served6 := map[string]net.IP{} // IPv6 address the zone served for a name
 	z := &vZone{}
 	aliasLoop := vBool()
+	viaCNAME := false
 	served := map[string]net.IP{} // address the zone served for a name
 	aChoice := map[string][2]bool{}
 	refused := map[string]bool{} // an address query for the name was answered with an error rcode
@@ -137,7 +150,13 @@ func verifC14Zone() {
 		case 65:
 			switch q.name {
 			case origin:
-				switch vInt(0, 5) {
+				switch vInt(0, 6) {
+				case 6: // the HTTPS record is reached through an in-answer CNAME chain of two hops
+					viaCNAME = true
+					m.Answer = append(m.Answer,
+						dns.RR{Name: origin, Type: 5, Class: 1, TTL: 60, Data: "h1.o.example"},
+						dns.RR{Name: "h1.o.example", Type: 5, Class: 1, TTL: 60, Data: "h2.o.example"},
+						dns.RR{Name: "h2.o.example", Type: 65, Class: 1, TTL: 60, Data: dns.HTTPS{Priority: 1, ECH: []byte{7}}})
 				case 5: // a malformed RRSet holding a service-mode and an alias-mode record
 					m.Answer = append(m.Answer,
 						dns.RR{Name: origin, Type: 65, Class: 1, TTL: 60, Data: dns.HTTPS{Priority: 1, ECH: []byte{1}}},
@@ -191,7 +210,13 @@ func verifC14Zone() {
 				m.Answer = append(m.Answer, dns.RR{Name: "evil.example", Type: 5, Class: 1, TTL: 60, Data: "evil2.example"},
 					dns.RR{Name: "evil2.example", Type: 1, Class: 1, TTL: 60, Data: vMarkerIP})
 			}
-			if ch[1] {
+			if ch[1] && ch[0] {
+				// through an in-answer CNAME chain of two hops
+				m.Answer = append(m.Answer, dns.RR{Name: q.name, Type: 5, Class: 1, TTL: 60, Data: "c." + q.name},
+					dns.RR{Name: "c." + q.name, Type: 5, Class: 1, TTL: 60, Data: "d." + q.name},
+					dns.RR{Name: "d." + q.name, Type: 1, Class: 1, TTL: 60, Data: net.IP{10, 0, 0, 3}})
+				served[q.name] = net.IP{10, 0, 0, 3}
+			} else if ch[1] {
 				// through an in-answer CNAME
 				m.Answer = append(m.Answer, dns.RR{Name: q.name, Type: 5, Class: 1, TTL: 60, Data: "c." + q.name},
 					dns.RR{Name: "c." + q.name, Type: 1, Class: 1, TTL: 60, Data: net.IP{10, 0, 0, 1}})
@@ -242,6 +267,9 @@ func verifC14Zone() {
 		for _, ip := range ips {
 			vAssert(!vBytesEq(ip, vMarkerIP), "addresses attached to unrelated owner names are never used")
 		}
+	}
+	if viaCNAME {
+		vAssert(len(res.HTTPS) == 1 && len(res.HTTPS[0].ECH) == 1 && res.HTTPS[0].ECH[0] == 7, "an HTTPS record reached through the in-answer CNAME chain is used")
 	}
 	prev := uint16(0)
 	for _, h := range res.HTTPS {
